@@ -413,7 +413,7 @@ func c09Child(args []string) int {
 		}
 		x := newSess(sessCfg{maxDepth: p.maxDepth})
 		x.opts.MaxDuration = time.Second
-		if strings.HasPrefix(p.name, "heavy-") || strings.HasPrefix(p.name, "limit-") || strings.Contains(p.name, "doubling") {
+		if strings.HasPrefix(p.name, "heavy-") || strings.HasPrefix(p.name, "limit-") || strings.Contains(p.name, "doubling") || strings.Contains(p.name, "retained") {
 			// these end by the depth / nesting limit (or kill the process): no deadline in the way, so that the
 			// outcome does not depend on how fast the machine is
 			x.opts.MaxDuration = 60 * time.Second
@@ -581,7 +581,7 @@ func c09Children(c *core.Ctx, bounds *[]string) {
 					outcome = "other-panic"
 					c.Report(&core.Viol{Class: j.kind + ":other-panic", Detail: j.prog.name + ": " + class, Case: cs, FindText: j.prog.name})
 				}
-				if ms > 6000+1000*srcmb && !strings.HasPrefix(j.prog.name, "heavy-") && !strings.HasPrefix(j.prog.name, "limit-") && !strings.Contains(j.prog.name, "doubling") { // deadline + 5 s + 1 s per MiB of source text (parsing and printing are outside the deadline)
+				if ms > 6000+1000*srcmb && !strings.HasPrefix(j.prog.name, "heavy-") && !strings.HasPrefix(j.prog.name, "limit-") && !strings.Contains(j.prog.name, "doubling") && !strings.Contains(j.prog.name, "retained") { // deadline + 5 s + 1 s per MiB of source text (parsing and printing are outside the deadline)
 					outcome = "late"
 					c.Report(&core.Viol{Class: j.kind + ":returns-late", Detail: fmt.Sprintf("%s used %d ms of CPU time with a 1 s deadline", j.prog.name, ms), Case: cs, FindText: j.prog.name})
 				}
